@@ -21,7 +21,7 @@ EXPLANATION = (
     "row and written only as assignment[row-1] = col-1 under guards excluding unmatched, dummy-row and dummy-column "
     "entries, from the column-match table the augmentation wrote; (O3) reflection for maximise is `max - cost` over "
     "the user's matrix, applied exactly when minimize is false, and dummy cells hold one constant in both modes (so "
-    "padding cannot favour a row); working matrix side is max(rows, cols). NOT decided: optimality over all "
+    "padding cannot favour a row); working matrix side is max(rows, cols). (O5) the running minima of the augmenting search are updated under exact comparisons. NOT decided: optimality over all "
     "matchings, the potential/slack updates, that no column is used twice (follows from col_match being a function "
     "of the column, checked, plus the algorithm's invariants, not checked)."
 )
@@ -106,6 +106,21 @@ def run(ctx: Ctx):
     copies = [n for n in own_nodes(f.node) if isinstance(n, ast.Assign) and ast.unparse(n.targets[0]) == f"{wm}[i][j]" and ast.unparse(n.value) == f"{user}[i][j]"]
     ctx.ob("C10-O3", "R18 table", f, "real cells are copied from the user's matrix at the same position", len(copies) == 1, "", node=f.node)
     check_dual_update(ctx)
+    # O5 running minima of the search are exact: `if X < Y: Y = X` with no tolerance on either side
+    n_min = 0
+    for n in own_nodes(f.node):
+        if not (isinstance(n, ast.If) and isinstance(n.test, ast.Compare) and len(n.test.ops) == 1):
+            continue
+        for st_ in n.body:
+            if isinstance(st_, ast.Assign) and len(st_.targets) == 1:
+                tt, vv = ast.unparse(st_.targets[0]), ast.unparse(st_.value)
+                test_t = ast.unparse(n.test)
+                if tt in test_t and vv in test_t and tt != vv and not isinstance(st_.value, ast.Constant):
+                    n_min += 1
+                    l_, r_, op_ = ast.unparse(n.test.left), ast.unparse(n.test.comparators[0]), type(n.test.ops[0])
+                    exact = (l_ == vv and r_ == tt and op_ in (ast.Lt, ast.LtE)) or (l_ == tt and r_ == vv and op_ in (ast.Gt, ast.GtE))
+                    ctx.ob("C10-O5", "R30 ACCUMULATOR-PAIRING", f, f"running minimum `{tt}` is updated under the exact comparison with `{vv}`", exact, f"`{test_t}`: with a tolerance a strictly shorter alternating path is not recorded, the search augments along a non-shortest path and the matching is not minimal", node=n)
+    ctx.floor("running minima in solve_hungarian", n_min, 2)
     generic_sweeps(ctx)
 
 
@@ -197,6 +212,11 @@ def _v_cached_work_matrix(tree):
     tree.body[idx:idx] = M.stmts("from functools import lru_cache\n@lru_cache(maxsize=64)\ndef _work_matrix(n):\n    return [[0.0] * n for _ in range(n)]")
 
 
+def _v_slack_tolerance(tree):
+    g = M.find_func(tree, "solve_hungarian")
+    M.replace_expr(g, lambda e: M.src_is(e, "reduced_cost < min_slack[j]"), M.expr("reduced_cost < min_slack[j] - 1e-09"))
+
+
 def _t_reformat(tree):
     pass
 
@@ -218,6 +238,7 @@ VARIANTS = [
     M.Variant("dual update applied only for positive steps (seed C10-B)", HU, _v_update_only_positive, "C10-O4"),
     M.Variant("twin: dual update skipped for a zero step", HU, _t_skip_zero_step, None),
     M.Variant("padded work matrix comes from an lru_cache and keeps the padding of the previous call (seed C10-D)", HU, _v_cached_work_matrix, "C10-G3"),
+    M.Variant("slack scan ignores improvements below an absolute tolerance (seed C10-F)", HU, _v_slack_tolerance, "C10-O5"),
     M.Variant("twin: reformat", HU, _t_reformat, None),
     M.Variant("twin: rename assignment / objective / working matrix", HU, _t_rename, None),
 ]
